@@ -119,6 +119,32 @@ def run(chk):
                 dex = [x for x, _ in execs.get("on_disconnect", [])]
                 w = core.must_pass(b, [sw[1]], removes, through_nodes=dex, through_edges=unset.get("on_disconnect", set()), after_from=False)
                 chk.ob("R2.disconnect", fn, "heartbeat timeout -> disconnect handler dispatched (or unset)", w is None, "", path=w, where=b.where(blk))
+        # liveness is judged from last_pong, which only an answer to a ping refreshes: when a ping is due every registered stream gets
+        # one — nothing about the stream's recent traffic may suppress it (a client that is busy sending would otherwise time out)
+        hbi = next((i for i, x in enumerate(prog.structs.get("humphrey_ws::async_app::AsyncWebsocketApp", {}).get("fields", [])) if x["name"] == "heartbeat"), None)
+        pings = b.calls_to(r"WebsocketStream::ping$")
+        chk.floor("heartbeat ping site", len(pings), 1)
+        for pb_, pt_ in pings:
+            odd = []
+            for s_, lab, gd, info in core.guards_dominating(prog, b, pb_):
+                if info and info.get("pseudo"):
+                    gdesc = gd
+                else:
+                    gdesc = gd
+                okg = False
+                if isinstance(gdesc, tuple) and gdesc:
+                    if lab in ("Some", "Ok", "Continue", "None", "Err") and gdesc[0] == "call" and core.re.search(r"Iterator>?::next$|HashMap::<K, V, S, A>::(get_mut|get)$|recv_nonblocking$|try_recv$|peer_addr$", gdesc[1]):
+                        okg = True
+                    elif desc_contains(gdesc, lambda y: y[0] == "field" and y[2] == hbi and y[1][0] == "param"):
+                        okg = True       # "is a ping due" (heartbeat configuration / last ping time)
+                    elif desc_contains(gdesc, lambda y: y[0] == "call" and y[1].endswith("Instant::elapsed")):
+                        okg = True       # the timeout test on last_pong
+                    elif info and info.get("kind") == "enum":
+                        okg = True       # which Restion / Result arm the poll took is handled by the rules above
+                if not okg:
+                    odd.append((lab, core.short(str(gdesc))[:70]))
+            chk.ob("R2.heartbeat", fn, "when a ping is due, every registered stream is pinged (no other condition on the ping)", not odd,
+                   f"the ping also depends on {odd}: a live client for which that condition fails is never pinged, never answers, and is timed out", where=b.where(pb_))
     # ---- R3 incoming
     def drain_sites(field):
         """(block, label of the 'got one' edge): next() over try_iter() of the receiver field, or try_recv() on it (`while let Ok(..)`)."""
